@@ -251,3 +251,26 @@ Definition lc_approx (pls : list approxL) (coeffs : list Q) (ostart ostop : opti
 
 Definition average_approx (pls : list approxL) (ostart ostop : option Q) (osteps : option nat) : res approxL :=
   lc_approx pls (repeat (1 / QofN (length pls)) (length pls)) ostart ostop osteps.
+
+(* ------------------------------------------------------------------ expression trees over exact landscapes
+   (every sequence of operations on shared operands is such a tree over the leaves) *)
+Inductive expr :=
+| Leaf (i : nat) | EAdd (e1 e2 : expr) | ESub (e1 e2 : expr) | ENeg (e : expr)
+| EScale (c : Q) (e : expr) | EDiv (e : expr) (c : Q).
+
+Definition bind {A B} (r : res A) (f : A -> res B) : res B :=
+  match r with
+  | Ok x => f x
+  | ErrDegree => ErrDegree | ErrStart => ErrStart | ErrStop => ErrStop | ErrSteps => ErrSteps
+  | ErrDivZero => ErrDivZero | ErrEmpty => ErrEmpty | ErrShape => ErrShape | ErrFuel => ErrFuel
+  end.
+
+Fixpoint eval_expr (v : variant) (env : list exactL) (e : expr) : res exactL :=
+  match e with
+  | Leaf i => match nth_error env i with Some A => Ok A | None => ErrEmpty end
+  | EAdd e1 e2 => bind (eval_expr v env e1) (fun A => bind (eval_expr v env e2) (fun B => e_add v A B))
+  | ESub e1 e2 => bind (eval_expr v env e1) (fun A => bind (eval_expr v env e2) (fun B => e_sub v A B))
+  | ENeg e1 => bind (eval_expr v env e1) (fun A => Ok (e_neg A))
+  | EScale c e1 => bind (eval_expr v env e1) (fun A => Ok (e_mul c A))
+  | EDiv e1 c => bind (eval_expr v env e1) (fun A => e_div A c)
+  end.
